@@ -8,7 +8,7 @@ command -v tlc >/dev/null || { echo "tlc not on PATH"; exit 1; }
 S=$(mktemp -d); trap 'rm -rf "$S"' EXIT
 cp spec/*.tla "$S"/ 2>/dev/null || true
 # proof modules EXTEND TLAPS: make the proof system's standard module visible to SANY when it is installed
-[ -f /opt/veriftools/tlapm/lib/tlapm/stdlib/TLAPS.tla ] && cp /opt/veriftools/tlapm/lib/tlapm/stdlib/TLAPS.tla "$S"/ || rm -f "$S"/*Proof.tla
+[ -f /opt/veriftools/tlapm/lib/tlapm/stdlib/TLAPS.tla ] && cp /opt/veriftools/tlapm/lib/tlapm/stdlib/TLAPS.tla /opt/veriftools/tlapm/lib/tlapm/stdlib/NaturalsInduction.tla "$S"/ || rm -f "$S"/*Proof.tla
 fail=0
 for f in "$S"/*.tla; do
   [ -e "$f" ] || continue
